@@ -128,6 +128,24 @@ impl<'a> Cs<'a> {
         }
         s
     }
+    /// Any Rust string: like `string()` but also with NUL characters, longer, and around word boundaries.
+    pub fn string_any(&mut self) -> String {
+        const ALPH: &[&str] = &["\0", "a", "\0\0", "é", "\u{10348}", "\n", "\"", "\\", "main", " ", "\u{7f}", "€"];
+        match self.below(10) {
+            0 => return String::new(),
+            1 => return "\0".to_string(),
+            2 => return format!("{}\0", self.string()),
+            3 => return format!("{}\0{}", self.string(), self.string()),
+            4 => return self.string(),
+            _ => {}
+        }
+        let n = self.below(40);
+        let mut s = String::new();
+        for _ in 0..n {
+            s.push_str(ALPH[self.below(ALPH.len())]);
+        }
+        s
+    }
     /// ASCII string with exactly `n` bytes.
     pub fn ascii_exact(&mut self, n: usize) -> String {
         (0..n)
